@@ -1,4 +1,4 @@
-import LcModel.Sync.Lemmas
+import LcModel.Sync.LemmasFork
 /-!
 # C09 — set_scripts does what the README says and never makes a kept script lose history
 
@@ -93,6 +93,18 @@ theorem nothing_lost (touches : Nat → Nat → Bool) (g : G) (hi : Inv touches 
     (s n b : Nat) (hs : (s, n) ∈ g.p.scripts) (ht : touches s b = true)
     (hlo : g.lo s < b) (hb : b ≤ tip) : (s, b) ∈ g.p.indexed := by
   exact indexed_of_done hi hdone hs ht hlo (Nat.le_trans hb htip)
+
+/-- **no overclaim, reorganisations included**: after every history of commands, filter batches,
+block arrivals, crashes at any write boundary and reorganisations of the chain (each handled
+completely, possibly after crashes inside the handling), a block of the CURRENT chain at or below
+the number `get_scripts` reports for a script, above the number the script was registered with,
+that touches the script, is indexed -/
+theorem no_overclaim_after_forks (evs : List Ev) (touches : Nat → Nat → Bool) (g : G)
+    (hi : Inv touches g) (ho : EvsOk touches g evs)
+    (s n b : Nat) (hs : (s, n) ∈ (runEv touches g evs).2.p.scripts)
+    (ht : (runEv touches g evs).1 s b = true) (hlo : (runEv touches g evs).2.lo s < b)
+    (hb : b ≤ n) : (s, b) ∈ (runEv touches g evs).2.p.indexed :=
+  (inv_runEv evs touches g hi ho).safe (s, n) hs b ht hlo hb
 
 /-! ## the rule before the repair loses history (the defect fixed by 6d2afd8) -/
 
